@@ -26,7 +26,7 @@ def _gotest(ctx, ov, pkg, mode, infile, outfile):
     return int(m.group(1))
 
 
-def _finish_generic(ctx, judgemod, obsfile, cases, rej, env, mutate, record_case, rerun, extra):
+def _finish_generic(ctx, judgemod, obsfile, cases, rej, env, mutate, record_case, rerun, extra, extra_sigs=None):
     rnd = random.Random(ctx.seed)
     rows = vlib.read_ndjson(obsfile)
     bad = {ln for _, ln, _ in rej}
@@ -61,6 +61,8 @@ def _finish_generic(ctx, judgemod, obsfile, cases, rej, env, mutate, record_case
                     raise Machinery("re-execution observed something different for %s" % sig)
                 obs = json.loads(line)
                 g["record"] = {"case": record_case(obs), "observed": obs}
+    for k, v in (extra_sigs or {}).items():
+        sigs.setdefault(k, v)
     ctx.assumptions += ["encoding/xml's tokenizer underlies the independent reader", "overlay-injected recorder inside the repository's packages (go test -overlay)",
                         "TLC and the CommunityModules Json reader"]
     return ctx.finish(sigs, extra=extra)
@@ -72,7 +74,14 @@ def run_c15(ctx, replay):
     ov = _overlay(ctx)
     cases_path = os.path.join(gen, "xml.ndjson")
     if replay:
-        case = json.load(open(replay))["record"]["case"]
+        rec = json.load(open(replay))
+        case = rec["record"]["case"]
+        if case.get("typed") == "namesake":
+            hit = [k for k in _namesakes(ctx) if k == rec["signature"]]
+            for k in hit:
+                print("VIOLATION property=C15 replay=%s signature=%s" % (replay, k))
+            print("REPLAY property=C15 rejected=%d" % len(hit))
+            return 1 if hit else 0
         vlib.write_ndjson(cases_path, [case["case"]] if case.get("case") else [])
         of = ctx.path("obs", "replay.ndjson")
         _gotest(ctx, ov, "./internal", "c15", cases_path, of)
@@ -131,7 +140,30 @@ def run_c15(ctx, replay):
                      "rendered, captured as RawXMLValue, written out by xml.Marshal, through TokenReader into a second value, and embedded in a typed DAV:prop; every output "
                      "re-read by the independent reader must equal Canon(Expand(lexical)); token stream finite, balanced and equal to the model's; typed decoding via the raw "
                      "value equals direct decoding for 14 typed property documents"}
-    return _finish_generic(ctx, "XmlJudge", of, cases_path, rej, {"CASES": cases_path}, mutate, record_case, rerun, extra)
+    return _finish_generic(ctx, "XmlJudge", of, cases_path, rej, {"CASES": cases_path}, mutate, record_case, rerun, extra, extra_sigs=_namesakes(ctx))
+
+
+def _namesakes(ctx):
+    """typed decoding of two property types that bear the same Go name in two packages (caldav / carddav max-resource-size,
+    supported sets, home sets) in ONE process, in both orders: discovery documents from the independent writer read by both clients"""
+    clirec = ctx.go_build("clirec")
+    col = {"path": "c1", "name": "n1", "desc": "t1", "max": 2, "sup": "one"}
+    def case(srv, layout):
+        return {"k": "doc", "srv": srv, "call": "cols", "layout": layout, "objs": [], "cols": [col]}
+    sigs = {}
+    for order in (("card", "cal"), ("cal", "card")):
+        cf = ctx.path("gen", "namesake-%s.ndjson" % order[0])
+        vlib.write_ndjson(cf, [case(order[0], "plain"), case(order[1], "plain"), case(order[0], "split"), case(order[1], "prefixes")])
+        of = ctx.path("obs", "namesake-%s.ndjson" % order[0])
+        ctx.run([clirec, "-mode", "c10", "-in", cf, "-out", of, "-seed", str(ctx.seed), "-conc", "hostile", "-scratch", ctx.scratch], timeout=600)
+        rej, tot = ctx.judge("C10Judge", [of], par=1)
+        ctx.cov["traces_validated_against_impl"] += tot
+        for f, ln, s in rej:
+            obs = json.loads(open(f).read().splitlines()[ln - 1])
+            sig = "typed-namesake first=%s %s" % (order[0], s[4:])
+            g = sigs.setdefault(sig, {"count": 0, "record": {"case": {"case": None, "typed": "namesake", "order": list(order)}, "observed": obs}})
+            g["count"] += 1
+    return sigs
 
 
 def run_c16(ctx, replay):
